@@ -57,6 +57,7 @@ func newEventDebouncer(name string, eventHandler func([]frame), logger StdLogger
 }
 
 func (e *eventDebouncer) stop() {
+	verifEvent("e_stop_send", e, "", 0, nil)
 	e.quit <- struct{}{} // sync with flusher
 	close(e.quit)
 }
@@ -66,9 +67,11 @@ func (e *eventDebouncer) flusher() {
 		select {
 		case <-e.timer.C:
 			e.mu.Lock()
+			verifEvent("e_flush", e, "", len(e.events), nil)
 			e.flush()
 			e.mu.Unlock()
 		case <-e.quit:
+			verifEvent("e_quit", e, "", 0, nil)
 			return
 		}
 	}
@@ -94,6 +97,7 @@ func (e *eventDebouncer) flush() {
 
 func (e *eventDebouncer) debounce(frame frame) {
 	e.mu.Lock()
+	verifEvent("e_debounce", e, "", len(e.events), nil)
 	e.timer.Reset(eventDebounceTime)
 
 	// TODO: probably need a warning to track if this threshold is too low
